@@ -95,6 +95,7 @@ var props = []Prop{
 			{Dir: "internal/pkg/input", Fn: "VF_C09_meta", Split: 6},
 			{Dir: "internal/pkg/input", Fn: "VF_C09_services", Split: 6},
 			{Dir: "internal/pkg/input", Fn: "VF_C09_identity"},
+			{Dir: "internal/cmd/runner", Fn: "VF_C09_fold", Split: 4},
 		},
 		Bounds:      []string{"three inputs a,b,c; scalar attributes one at a time over all 2^3 nil-patterns with symbolic contents plus the all-present pattern; lists of <= 1 (quick) / 2 (thorough) elements; maps over a universe of two symbolic keys; two services; <= 1 decorator per file"},
 		Outside:     []string{"joint nil-patterns of several scalar attributes other than all-present", "byte-identity of the rendered file for split vs unsplit input (follows from these laws plus C08; not rendered here)", "file discovery order (glob/sort) - stubbed environment, see C10"},
@@ -133,5 +134,24 @@ var props = []Prop{
 		Outside:     []string{"instance identity over Get histories and resolution of the default scope: implemented by the runtime library, not by gontainer", "the scope keyword -> runtime setter mapping in the template (template stage)"},
 		Stubs:       []string{"gontainer-helpers/v3/graph as in C07"},
 		Assumptions: commonAssumptions,
+	},
+	{
+		ID: "C08", Level: "model_checking",
+		Harnesses: []HSpec{
+			{Dir: "internal/pkg/maps", Fn: "VF_C08_keys", Perms: true, Tries: 64},
+			{Dir: "internal/pkg/input", Fn: "VF_C08_meta_validators", Perms: true, Tries: 64},
+			{Dir: "internal/pkg/input", Fn: "VF_C08_validators", Perms: true, Tries: 64},
+			{Dir: "internal/pkg/input", Fn: "VF_C08_merge", Perms: true, Tries: 64},
+			{Dir: "internal/pkg/input", Fn: "VF_C08_scope_tables", Perms: true, Tries: 8, InitPerms: true},
+			{Dir: "internal/pkg/imports", Fn: "VF_C08_imports", Perms: true, Tries: 64, Split: 6},
+			{Dir: "internal/pkg/compiler", Fn: "VF_C08_compile_steps", Perms: true, Tries: 64, Split: 4},
+			{Dir: "internal/pkg/output", Fn: "VF_C08_scopes", Perms: true, Tries: 64},
+			{Dir: "internal/cmd/runner", Fn: "VF_C08_read_config", Perms: true, Tries: 64},
+		},
+		Bounds:      []string{"every range-over-map statement of the repository (inventory taken from the SSA on each run) executed twice under independently chosen iteration orders (all permutations), maps of 2 entries (Keys: 2 quick / 3 thorough) with symbolic keys <= 3 code points; results, diagnostics and registration order compared"},
+		Outside:     []string{"environment variables and working directory (repo code reads neither)", "maps of more entries", "YAML key order before decoding (gone after yaml.v3 builds Go maps)", "order produced inside yaml.v3 / gonum (stubbed)"},
+		Stubs:       []string{"collaborators of the compile steps are recording mocks"},
+		Assumptions: commonAssumptions,
+		Extra:       rangeInventory,
 	},
 }
